@@ -394,21 +394,29 @@ func c15ComposeCls(c *wk.Case, gen, cls, a, b string, ra, rb *c15Res) (*c15Res, 
 	c.Begin(c15BeginInput(gen, ab))
 	rab := c15Parse(ab, c15CPUBudget, true)
 	c.Events(1)
+	return rab, c15ComposeJudge(c, gen, cls, a, b, ra, rb, rab)
+}
+
+// c15ComposeJudge is the oracle of c15ComposeCls applied to a result of parsing A+"\n"+B obtained by the
+// caller (cls already carries its leading colon or is empty); used by the round-8 phases (c15_r8.go), whose
+// goroutines parse and whose case goroutine judges.
+func c15ComposeJudge(c *wk.Case, gen, cls, a, b string, ra, rb, rab *c15Res) bool {
+	ab := a + "\n" + b
 	sa, sb := astx.StmtList(ra.tree), astx.StmtList(rb.tree)
 	c.Eval(a+"\x00"+b, len(sa) > 0 && len(sb) > 0)
 	c.Tag("gen:" + gen)
 	in := map[string]interface{}{"gen": gen, "A": c15Clip(a), "B": c15Clip(b)}
 	if !c15Judge(c, gen, ab, rab) {
-		return rab, false
+		return false
 	}
 	if !rab.ok {
 		c.Violation("compose:concat-fails:"+c15MsgClass(rab.pe.Message)+cls, fmt.Sprintf("A and B parse alone but A+\"\\n\"+B fails: %q at %d:%d", rab.pe.Message, rab.pe.Pos.Line, rab.pe.Pos.Column), in)
-		return rab, false
+		return false
 	}
 	sab := astx.StmtList(rab.tree)
 	if len(sab) != len(sa)+len(sb) {
 		c.Violation("compose:statement-count"+cls, fmt.Sprintf("stmts(A)=%d stmts(B)=%d but stmts(A+\"\\n\"+B)=%d", len(sa), len(sb), len(sab)), in)
-		return rab, false
+		return false
 	}
 	shift := strings.Count(a, "\n") + 1
 	for i, s := range sab {
@@ -419,21 +427,26 @@ func c15ComposeCls(c *wk.Case, gen, cls, a, b string, ra, rb *c15Res) (*c15Res, 
 			part, alone, sh = "second", sb[i-len(sa)], shift
 		}
 		if got, want := astx.Dump(s, astx.Opts{}), astx.Dump(alone, astx.Opts{}); got != want {
-			c.Violation("compose:"+part+"-part-structure:"+reflect.TypeOf(s).String()+cls,
+			c.Violation("compose:"+part+"-part-structure:"+c15TypeName(s)+cls,
 				fmt.Sprintf("statement %d of A+\"\\n\"+B: got %s want %s", i, c15ClipS(got, 400), c15ClipS(want, 400)), in)
-			return rab, false
+			return false
+		} else if strings.Contains(got, "…(") && c15LongLits(s) != c15LongLits(alone) {
+			// the dump shows the first 200 bytes and the length of a literal: compare the longer ones in full (c15_r8.go)
+			c.Violation("compose:"+part+"-part-structure:"+c15TypeName(s)+cls,
+				fmt.Sprintf("statement %d of A+\"\\n\"+B: a string literal of more than 200 bytes differs behind its first 200 bytes; got %s", i, c15ClipS(got, 400)), in)
+			return false
 		}
 		if typ, msg := c15PosDiff(s, alone, sh); msg != "" {
 			c.Violation("compose:"+part+"-part-position:"+typ+cls,
 				fmt.Sprintf("statement %d of A+\"\\n\"+B (B's lines shifted by %d): %s; got %s", i, shift, msg, c15ClipS(astx.Dump(s, astx.Opts{Pos: true}), 400)), in)
-			return rab, false
+			return false
 		}
-		c.Tag("composed-stmt:" + strings.TrimPrefix(reflect.TypeOf(s).String(), "*ast."))
+		c.Tag("composed-stmt:" + strings.TrimPrefix(c15TypeName(s), "*ast."))
 	}
 	if c.WantSample() && len(ab) < 200 && len(sa) > 0 && len(sb) > 0 {
 		c.Sample(map[string]interface{}{"gen": gen, "A": a, "B": b, "observed": fmt.Sprintf("%d+%d statements, B shifted by %d lines: equal dumps", len(sa), len(sb), shift)})
 	}
-	return rab, true
+	return true
 }
 
 // c15PosDiff compares the positions of all nodes of two structurally equal statements: every node of
@@ -1619,7 +1632,7 @@ func init() {
 					"phase blanks: characters that are blank, invisible or padding for some layer but not for the scanner (" + strconv.Itoa(len(c15WSChars)) + " of them: Unicode White_Space FF, VT, NEL, NBSP, U+1680, U+2000-200A, LS, PS, NNBSP, MMSP, IDSP; byte order marks whole, cut and as UTF-16 bytes; zero-width and format characters; NUL, SUB, EOT, FS-US, BS, DEL; the Latin-1 bytes 85 and A0) - one deterministic case per character: texts made only of it (alone, repeated, runs of 1000, with the scanner's blanks, CR, LF and CRLF around and between, with a second such character), the character next to terminators and comments in texts without a statement, at the start, at the end, at both ends, on a line of its own before/after/between, next to a ';' and between the tokens of " + strconv.Itoa(len(c15WSStems)) + " valid stems, and - control group - inside strings, raw strings and comments; every text is judged by the totality/position/determinism oracles, and each one that parses alone is composed with " + strconv.Itoa(len(c15WSPartners)+1) + " partners (empty, newline, blanks, comments, ';', statements over one and several lines, the character inside a string and a comment), with itself and with a slice of the corpus, in both orders, the texts made only of such characters also with three more texts of that kind; then PRNG cases of 20 chains each: 2-5 pieces (runs of such characters mixed with blanks and line breaks, blank runs, empty, comment-only, terminator-only, valid texts, valid texts with such a run at an end, on a line of its own, behind a ';' or between two tokens) folded from the left or from the right - whenever the text so far and the next piece both parse alone the clause is applied to them, and the joined text is the text so far of the next step (a text embedded in a longer source). " +
 					"phase edgepairs: complete square of hand-written valid edge texts and edge x corpus both ways; phase pairs: PRNG pairs (corpus, generated, mutated-but-valid, edge) — A, B parse alone => A+\"\\n\"+B parses to stmts(A)++stmts(B), compared statement by statement by reflective dump with B's lines shifted by count('\\n',A)+1. " +
 					"phase race (-race build): 8 goroutines parse the same text simultaneously and different texts interleaved; every result equals the sequential one. " +
-					"An evaluation is non-trivial when the text is not blank (pairs: both sides have >=1 statement); distinct = distinct text (pair).",
+					"An evaluation is non-trivial when the text is not blank (pairs: both sides have >=1 statement); distinct = distinct text (pair)." + c15R8Rule + c15R9Rule,
 				Assumptions: []string{
 					"termination is restated as a budget: one input may consume at most 20 CPU-seconds (5 CPU-seconds when it is <= 4 KB) and allocate at most 1 GiB (normal: < 50 ms and < 1 MB; worst legitimate case, a 20000-deep nest: ~0.1 s and ~140 MB; inputs are <= 256 KB); exceeding it is reported as a violation with the in-flight input; a wall-clock watchdog expiry alone is inconclusive",
 					"lines of the input = number of '\\n' + 1 (the empty line after a trailing newline counts); line length taken in bytes, the more permissive unit",
@@ -1628,9 +1641,10 @@ func init() {
 					"which white space may stand between the '=' and the '<-' of a receive assignment is not judged (the statement is silent): a spelling that fails is judged as an error text, one that parses alone must compose like every other text",
 					"which characters are blank is not judged (the statement is silent): a text made of Unicode white space, byte order marks, zero-width or control characters - alone or around a valid text - may fail or parse; if it fails it is judged as an error text, if ParseSrc accepts it alone it is a text that parses on its own and must compose like every other, as first and as second part (violations found with such texts carry the kind of text and the class of character in their signature)",
 					"a text that ends in an unterminated string, raw string or comment is not required to fail (the statement does not say which texts are programs): if ParseSrc accepts it, it is a text that parses on its own and must compose like every other; if not, it is judged as an error text",
+					c15R8Assumptions[0], c15R8Assumptions[1], c15R8Assumptions[2], c15R8Assumptions[3], c15R8Assumptions[4], c15R8Assumptions[5],
 				},
 				CrashIsViolation: true,
-				Phases: []fw.Phase{
+				Phases: append([]fw.Phase{
 					{Name: "scan", Cases: nFam, Chunk: 1, TimeoutS: 900},
 					{Name: "corpus", Cases: nCorpus, Chunk: 50, TimeoutS: 900},
 					{Name: "edgepairs", Cases: len(c15EdgeTexts), Chunk: 8, TimeoutS: 900},
@@ -1641,7 +1655,7 @@ func init() {
 					{Name: "pairs", Cases: nPairs, Chunk: 25, TimeoutS: 900},
 					{Name: "types", Cases: nTypes, Chunk: 25, TimeoutS: 900},
 					{Name: "race", Race: true, Cases: nRace, Chunk: 4, TimeoutS: 1200},
-				},
+				}, append(c15R8Phases(tier), c15R9Phases(tier)...)...), // bigsrc, history, hot, racehist: c15_r8.go; overlap: c15_r9.go
 			}
 		},
 		Init: func(w *wk.Worker) {
@@ -1650,6 +1664,9 @@ func init() {
 		Run: func(c *wk.Case) {
 			if !c.W.Replay && c15TooManyDeaths() {
 				c.Inconclusive("not-run-after-12-nontermination-violations", "ParseSrc already failed to return on 12 inputs of this run (each reported as a violation); this case was not executed", nil)
+				return
+			}
+			if c15R8Run(c) || c15R9Run(c) { // c15_r8.go, c15_r9.go
 				return
 			}
 			switch c.Phase {
